@@ -33,7 +33,8 @@ CONSTANTS NW,          \* threads_max
           Spurious,    \* BOOLEAN: condition waits may return without a signal
           MemT,        \* memlimit_threading (abstract units)
           Gives,       \* set of input amounts the application may add per call (model checking)
-          Spaces       \* set of output space grants per call
+          Spaces,      \* set of output space grants per call
+          CountCalls   \* BOOLEAN: count lzma_code calls (history variable for bounding; FALSE for liveness checking)
 
 W == 1..NW
 NB == Len(Blocks)
@@ -107,7 +108,7 @@ Call(a, g, s) ==
     /\ g <= FileLen - m.given
     /\ (a = "FINISH" => m.given + g = FileLen)
     /\ m' = [m EXCEPT !.act = a, !.inAvail = m.inAvail + g, !.given = m.given + g, !.outSpace = s, !.space0 = s,
-                      !.progress = FALSE, !.calls = m.calls + 1,
+                      !.progress = FALSE, !.calls = IF CountCalls THEN m.calls + 1 ELSE 0,
                       !.waitingAllowed = ((a = "FINISH") \/ (m.inAvail + g = 0 /\ ~m.outWasFilled)),
                       !.outWasFilled = FALSE, !.hasBlocked = FALSE, !.pc = "run"]
     /\ UNCHANGED <<c, t>>
